@@ -16,11 +16,26 @@ import (
 
 	"verifsim/core"
 	"verifsim/models/ledger"
+	"verifsim/simrt"
 )
 
-// R is how many times Store.UnminedTxs / DependencySort are called per check:
-// Go's map iteration order differs on every call.
+// R is how many times Store.UnminedTxs / DependencySort are called per check,
+// each time under a different map iteration order. The build overlay rewrites
+// every `for ... range <map>` of wtxmgr to iterate in an order decided by
+// simrt.SetMapSeed, so the order is a seeded, replayable choice: repetition i
+// at operation s of a run uses Mix(plan seed, s, i).
 const R = 8
+
+func runSeed(planSeed uint64) uint64 { return core.Mix(planSeed, 0x3a9) | 1 }
+
+// runMapSeed restores the run's map order seed (every query outside the C14
+// repetitions sees this one).
+func (x *oracle) runMapSeed() { simrt.SetMapSeed(runSeed(x.w.seed)) }
+
+// repMapSeed selects the map order of repetition rep at the current operation.
+func (x *oracle) repMapSeed(rep int) {
+	simrt.SetMapSeed(core.Mix(x.w.seed, uint64(x.env.CurStep()), uint64(rep)) | 1)
+}
 
 type oracle struct {
 	w     *world
@@ -884,7 +899,9 @@ func (x *oracle) checkC14(ns walletdb.ReadBucket, v *ledger.View) {
 	w := x.w
 	set := w.L.UnminedMsgs()
 	x.graphProbes(set, "")
+	defer x.runMapSeed()
 	for i := 0; i < R; i++ {
+		x.repMapSeed(i)
 		got, err := x.st.s.UnminedTxs(ns)
 		if x.qerr("UnminedTxs", err) {
 			return
